@@ -37,6 +37,8 @@ DEGRADED_IDS = {}
 UNREADABLE_IDS = {}
 # functions whose injected proof text no longer compiles against the changed body: emitted without hints / loop contracts
 FORCE_DEGRADE = set()
+# functions whose CONTRACT text no longer compiles against the changed signature: emitted as uncontracted external functions
+NOCONTRACT_IDS = set()
 
 
 class GenError(Exception):
@@ -669,6 +671,14 @@ def emit_fn(card, repo, out, info, twin=False, assumed_here=False):
         # solver's resource limit (which is reported as undecided)
         out.add('#[verifier::rlimit(%s)]' % card.opts.get('rlimit', '40'), {'fn': fid, 'part': 'attr'})
     out.add(sig, {'fn': fid, 'part': 'sig'})
+    if fid in NOCONTRACT_IDS:
+        rec['nocontract'] = True
+        rec['lost_clauses'] = [{'kind': c.kind, 'name': c.name, 'tags': c.tags} for c in card.requires + card.ensures]
+        out.add('{ unimplemented!() }', {'fn': fid, 'part': 'body'})
+        rec['out_sha256'] = None
+        rec['in_this_shard'] = False
+        info['functions'].append(rec)
+        return
     if card.requires:
         out.add('    requires', {'fn': fid, 'part': 'sig'})
         for c in card.requires:
@@ -1170,6 +1180,7 @@ def generate(repo, template_paths, twin=False, only=None, auto=()):
         out.add('} // verus!', None)
         info['functions'][-1]['auto'] = True
         auto_names.append(fname)
+    auto_names += [f['path'].split('::')[-1] for f in info['functions'] if f.get('nocontract')]
     if auto_names:
         # callers of uncontracted helpers
         lines = out.lines
@@ -1178,7 +1189,7 @@ def generate(repo, template_paths, twin=False, only=None, auto=()):
             if m and 'fn' in m and m.get('part') == 'body':
                 by_fn.setdefault(m['fn'], []).append(lines[i])
         for f in info['functions']:
-            if f.get('auto'):
+            if f.get('auto') or f.get('nocontract'):
                 continue
             txt = '\n'.join(by_fn.get(f['id'], []))
             hit = [n for n in auto_names if re.search(r'\b%s\s*\(' % re.escape(n), txt)]
